@@ -74,6 +74,10 @@ def lin_str(a):
 
 
 # ---------------------------------------------------------------------------
+def utf8_width(cp):
+    return 1 if cp < 0x80 else 2 if cp < 0x800 else 3 if cp < 0x10000 else 4
+
+
 class _Continue(Exception):
     def __init__(self, meter):
         self.meter = meter
@@ -111,6 +115,15 @@ class LoopExplorer:
         self.states = 0
         self.transitions = 0
         self.appends_per_iter = set()
+        self.cp = 0x41
+        # representative code points: every UTF-8 width class, both sides of
+        # each class boundary and of every integer constant the body compares
+        cps = {0x41, 0x7F, 0x80, 0x7FF, 0x800, 0xFFFF, 0x10000, 0x10FFFF}
+        for n in ast.walk(loop):
+            if isinstance(n, ast.Constant) and isinstance(n.value, int) \
+                    and not isinstance(n.value, bool) and 0x20 <= n.value <= 0x10FFFF:
+                cps |= {n.value - 1, n.value, min(n.value + 1, 0x10FFFF)}
+        self.codepoints = sorted(cps)
 
     # -- expression evaluation over concrete ints ---------------------------
     def ev(self, e, st, c):
@@ -146,6 +159,12 @@ class LoopExplorer:
                         ast.NotEq: a != b}[type(op)])
         if self.is_width(e):
             return c
+        if isinstance(e, ast.IfExp):
+            return self.ev(e.body if self.ev(e.test, st, c) else e.orelse, st, c)
+        if (isinstance(e, ast.Call) and isinstance(e.func, ast.Name)
+                and e.func.id == "ord" and len(e.args) == 1
+                and isinstance(e.args[0], ast.Name) and e.args[0].id == self.elem):
+            return self.cp
         raise AnalysisError(f"fold loop: unsupported expression {ast.unparse(e)[:50]}")
 
     def is_width(self, e):
@@ -213,7 +232,11 @@ class LoopExplorer:
         todo = [start]
         while todo:
             vars_t, meter = todo.pop()
-            for c in self.widths:
+            for cp in self.codepoints:
+                c = utf8_width(cp)
+                if c not in self.widths:
+                    continue
+                self.cp = cp
                 st = dict(vars_t)
                 log = []
                 try:
